@@ -218,3 +218,9 @@ static inline int post_verif_conv_pad(unsigned long src_dim, a2_t padding, sv16_
   return SV_LEN(ret) == d + d
       && IMPLIES(g < d, SV_AT(ret, g) == (g == d - 2UL ? ARR_AT(padding, 0) : g == d - 1UL ? ARR_AT(padding, 1) : 0UL) && SV_AT(ret, d + g) == SV_AT(ret, g));
 }
+
+/* sliding_window index with the axes convnd uses, (-1, -2): window[0] slides along the last axis, window[1] along the second-to-last */
+static inline int pre_verif_sliding_window_conv(sv10_t idx, sv10_t dst_shape, sv_t src_shape, a2_t window)
+{ ai2_t ax = {{-1, -2}}; return SV_LEN(src_shape) >= 2UL && pre_verif_sliding_window_axes(idx, dst_shape, src_shape, window, ax); }
+static inline int post_verif_sliding_window_conv(sv10_t idx, sv10_t dst_shape, sv_t src_shape, a2_t window, sv_t ret)
+{ ai2_t ax = {{-1, -2}}; return post_verif_sliding_window_axes(idx, dst_shape, src_shape, window, ax, ret); }
